@@ -6,9 +6,12 @@ import (
 )
 
 var (
-	sanitizeSetPassword = regexp.MustCompile(`(?i)password\s+for[^=]*=\s+(["']?[^\s"]+["']?)`)
+	// The password is a whole string literal (which may contain blanks, escaped
+	// quotes and '='), a double-quoted word or, for common invalid statements,
+	// a bare word. The user name may be a quoted identifier containing '='.
+	sanitizeSetPassword = regexp.MustCompile(`(?i)password\s+for\s+(?:"(?:[^"\\\n]|\\.)*"|[^\s="']+)\s*=\s*('(?:[^'\\\n]|\\.)*'|"(?:[^"\\\n]|\\.)*"|[^\s"';]+)`)
 
-	sanitizeCreatePassword = regexp.MustCompile(`(?i)with\s+password\s+(["']?[^\s"]+["']?)`)
+	sanitizeCreatePassword = regexp.MustCompile(`(?i)with\s+password\s*('(?:[^'\\\n]|\\.)*'|"(?:[^"\\\n]|\\.)*"|[^\s"';]+)`)
 )
 
 // Sanitize attempts to sanitize passwords out of a raw query.
